@@ -32,7 +32,7 @@ LEVEL_TEXT = ("Generated directory trees (nested packages, modules, __main__.py 
               "path must convert back to the name; split_modpath must give (root, relative path); importing importable leaves by path (index 0 and -1; modules that import cleanly, import a sibling "
               "or raise) must return the module of that name and file and leave sys.path the same object with the same "
               "entries. Randomised differential exploration with shrinking.")
-LEVEL_ADDED = ('Also generated: a second search directory holding the very same names (after an earlier lookup with the later directory alone: the order of the search path decides), and packages whose __init__ re-exports a function named like the submodule that defines it (a path import must still return the module).')
+LEVEL_ADDED = ("Also generated: a second search directory holding the very same names (after an earlier lookup with the later directory alone: the order of the search path decides), and packages whose __init__ re-exports a function named like the submodule that defines it (a path import must still return the module). A fifth of the cases name the search directory as '' (after a chdir); with index=0 and a mirrored second directory on sys.path the file that was asked for must win.")
 LEVEL_NOTE = ("Trusted: importlib.machinery.FileFinder with CPython's loader order as the interpreter's view. A directory "
               "without __init__.py (PEP 420 namespace portion) counts as 'nothing', because regular packages are what "
               "modname_to_modpath documents. Not generated: '__init__' as an explicit name part, two roots holding the same "
